@@ -157,7 +157,7 @@ def mk_quantiles(nparts, maxrows, maxout):
     return Obligation(f"quantile_divisions[parts={nparts},rows<={maxrows},nout<={maxout}]", setup, run)
 
 
-CHUNK_PATHS = 40
+CHUNK_PATHS = 15
 
 
 def obligations(tier):
